@@ -131,7 +131,7 @@ CHECKS["C12"] = {
     "assumptions": ["timers without a goroutine are not observable by the leak detector", "blocking-transport cases run in real time with a 10x bound"],
     "units": [
         {"pkg": "gbnprop", "run": "TestC12Close", "checks": (3000, 40000), "shards": (1, 8), "timeout": (900, 5400), "gomaxprocs": [16, 1, 2, 4]},
-        {"pkg": "gbnprop", "run": "TestC12SelfClose", "checks": (800, 20000), "shards": (1, 4), "timeout": (900, 5400), "gomaxprocs": [16, 1, 2, 4]},
+        {"pkg": "gbnprop", "run": "TestC12SelfClose", "checks": (800, 15000), "shards": (1, 4), "timeout": (900, 5400), "gomaxprocs": [16, 1, 2, 4]},
         {"pkg": "gbnprop", "run": "TestC12HandshakeCancel", "checks": (600, 4000), "shards": (1, 2), "timeout": (900, 5400)},
         {"pkg": "gbnprop", "run": "TestC12BlockingTransport", "checks": (2, 12), "shards": (1, 2), "timeout": (900, 5400)},
         {"pkg": "mboxprop", "run": "TestC12MailboxClose", "checks": (500, 8000), "shards": (1, 4), "timeout": (900, 5400)},
@@ -260,7 +260,7 @@ CHECKS["C08"] = {
     "assumptions": ["scrypt cost lowered by the verif hook"],
     "units": [
         {"pkg": "mboxprop", "run": "TestC08CipherStream", "checks": (400, 3000), "shards": (1, 8), "timeout": (900, 3600)},
-        {"pkg": "mboxprop", "run": "TestC08Duplex", "checks": (600, 20000), "shards": (1, 8), "timeout": (900, 3600)},
+        {"pkg": "mboxprop", "run": "TestC08Duplex", "checks": (600, 5000), "shards": (1, 8), "timeout": (900, 3600)},
     ],
 }
 
@@ -279,8 +279,8 @@ CHECKS["C16"] = {
         {"pkg": "mboxprop", "run": "TestC16HandshakeFragmentation", "kind": "plain", "timeout": (900, 3600)},
         {"pkg": "mboxprop", "run": "TestC16PartialEnum", "kind": "plain", "shards": (2, 8), "timeout": (900, 3600)},
         {"pkg": "mboxprop", "run": "TestC16PartialRapid", "checks": (2000, 40000), "shards": (1, 8), "timeout": (900, 3600)},
-        {"pkg": "mboxprop", "run": "TestC16Duplex", "checks": (1000, 40000), "shards": (1, 8), "timeout": (900, 3600)},
-        {"pkg": "mboxprop", "run": "TestC16Coalesce", "checks": (1500, 40000), "shards": (1, 8), "timeout": (900, 3600)},
+        {"pkg": "mboxprop", "run": "TestC16Duplex", "checks": (1000, 8000), "shards": (1, 8), "timeout": (900, 3600)},
+        {"pkg": "mboxprop", "run": "TestC16Coalesce", "checks": (1500, 10000), "shards": (1, 8), "timeout": (900, 3600)},
         {"pkg": "mboxprop", "run": "TestC16ConnWriteResume", "checks": (300, 6000), "shards": (1, 8), "timeout": (900, 3600)},
     ],
 }
@@ -299,8 +299,8 @@ CHECKS["C15"] = {
         {"pkg": "mboxprop", "run": "TestC15Grpc", "checks": (1500, 20000), "shards": (1, 4), "timeout": (900, 3600)},
         {"pkg": "mboxprop", "run": "TestC15TCP", "checks": (1500, 20000), "shards": (1, 4), "timeout": (900, 3600)},
         {"pkg": "mboxprop", "run": "TestC15Mailbox", "checks": (1200, 15000), "shards": (1, 8), "timeout": (900, 3600)},
-        {"pkg": "mboxprop", "run": "TestC15Interleaved", "checks": (400, 20000), "shards": (1, 8), "timeout": (900, 3600)},
-        {"pkg": "mboxprop", "run": "TestC15Coalesce", "checks": (1500, 40000), "shards": (1, 8), "timeout": (900, 3600)},
+        {"pkg": "mboxprop", "run": "TestC15Interleaved", "checks": (400, 4000), "shards": (1, 8), "timeout": (900, 3600)},
+        {"pkg": "mboxprop", "run": "TestC15Coalesce", "checks": (1500, 10000), "shards": (1, 8), "timeout": (900, 3600)},
         {"pkg": "mboxprop", "run": "TestC15LengthSweep", "kind": "plain", "timeout": (900, 3600)},
     ],
 }
